@@ -799,8 +799,8 @@ def makeringlatticeCIJ(n, k, seed=None):
     # fill in
     while kk < k:
         count += 1
-        dCIJ = np.triu(CIJ1, seq[count]) - np.triu(CIJ1, seq[count] + 1)
-        dCIJ2 = np.triu(CIJ1, seq2[count]) - np.triu(CIJ1, seq2[count] + 1)
+        dCIJ = np.triu(CIJ1, seq[count - 1]) - np.triu(CIJ1, seq[count - 1] + 1)
+        dCIJ2 = np.triu(CIJ1, seq2[count - 1]) - np.triu(CIJ1, seq2[count - 1] + 1)
         dCIJ = dCIJ + dCIJ.T + dCIJ2 + dCIJ2.T
         CIJ += dCIJ
         kk = int(np.sum(CIJ))
